@@ -1,14 +1,14 @@
-(* Obligation C20/poisson_ext_agrees.  Statement as printed by Coq from Inferno.C20.DistProofs; proof by reference.
+(* Obligation C20/poisson_ext_agrees.  Statement as printed by Coq from Inferno.C20.DistPoisson; proof by reference.
    This file contains nothing else, so the statement cannot be weakened quietly. *)
 From Coq Require Import Reals List ZArith Bool.
 From Coquelicot Require Import Coquelicot.
 From Flocq Require Import Core.Raux.
-From Inferno Require Import Base.Num Base.NumR C20.Model C20.Spec C20.DistProofs.
+From Inferno Require Import Base.Num Base.NumR Gen.Distributions C20.Model C20.Spec C20.DistPoisson.
 Import ListNotations.
 Open Scope R_scope.
-Theorem poisson_ext_agrees : forall (k : nat) (rate : R),
+Theorem poisson_ext_agrees : forall (lg : R -> R) (k : nat) (rate : R),
   rate <> 0 ->
-  poisson_logpmf_ext RN k rate = Some (poisson_logpmf RN k rate) /\
-  poisson_pmf_ext RN k rate = poisson_pmf RN k rate.
-Proof. exact (@Inferno.C20.DistProofs.poisson_ext_agrees). Qed.
+  poisson_logpmf_ext RN lg k rate = Some (poisson_logpmf RN lg (INR k) rate) /\
+  poisson_pmf_ext RN lg k rate = poisson_pmf RN lg (INR k) rate.
+Proof. exact (@Inferno.C20.DistPoisson.poisson_ext_agrees). Qed.
 Print Assumptions poisson_ext_agrees.
